@@ -265,7 +265,12 @@ def find_fn(toks, name, occurrence=0, impl_of=None):
                 i += 1
                 continue
             j = i
-            while toks[j][1] != "{" and toks[j][1] != ";":
+            bdepth = 0  # a `;` inside `[T; N]` / `(..)` of the signature does not end the item
+            while not (toks[j][1] == "{" or (toks[j][1] == ";" and bdepth == 0)):
+                if toks[j][1] in ("(", "["):
+                    bdepth += 1
+                elif toks[j][1] in (")", "]"):
+                    bdepth -= 1
                 j += 1
             if toks[j][1] == ";":
                 i = j
@@ -355,6 +360,7 @@ CONST_ITEMS = [
     ("src/enc/brotli_bit_stream.rs", "kHuffmanBitLengthHuffmanCodeBitLengths", None),
     ("src/enc/entropy_encode.rs", "gaps", "kShellGaps"),
     ("src/enc/entropy_encode.rs", "kLut", "kReverseLut"),
+    ("src/lib.rs", "VERSION", "BROTLI_CRATE_VERSION"),
 ]
 
 # functions whose integer literals (in source order) are harvested as a list
